@@ -1,4 +1,6 @@
 // Harnesses for src/parser/stream.rs (C02, C18, parts of C03/C04/C05).
+// @requires protocol/nv.rs
+// @requires parser/request.rs
 // One-step lemmas from an ARBITRARY parser state (all private fields symbolic, constrained only by the
 // representation invariant `debug_assert_invars!`), so each covers the call after every history.
 use super::*;
@@ -44,6 +46,21 @@ pub(crate) fn mk<'a>(cfg: &'a Config, buf: [u8; B], geo: (usize, usize, usize, u
         buffer: Box::new(buf), parsed_start: geo.0, gap_start: geo.1, raw_start: geo.2, free_start: geo.3,
         config: cfg, output, output_start, request, stream, payload_rem, padding_rem, state,
     }
+}
+
+/// Accessors for harness modules outside parser::stream (private fields are invisible there).
+pub(crate) fn x_geo(p: &Parser<'_>) -> (usize, usize, usize, usize, usize) { (p.parsed_start, p.gap_start, p.raw_start, p.free_start, p.buffer.len()) }
+pub(crate) fn x_byte(p: &Parser<'_>, i: usize) -> u8 { p.buffer[i] }
+pub(crate) fn x_rec(p: &Parser<'_>) -> (u16, u8) { (p.payload_rem, p.padding_rem) }
+pub(crate) fn x_out(p: &Parser<'_>) -> (usize, usize) { (p.output.len(), p.output_start) }
+/// 0 = Stream, 1 = Skip, 2 = Values
+pub(crate) fn x_state(p: &Parser<'_>) -> u8 { match p.state { State::Stream => 0, State::Skip => 1, State::Values { .. } => 2 } }
+pub(crate) fn state_of(code: u8) -> State { match code { 0 => State::Stream, 1 => State::Skip, _ => State::Values { vars: fcgi::ProtocolVariables::empty() } } }
+#[allow(clippy::too_many_arguments)]
+pub(crate) fn mk_code<'a>(cfg: &'a Config, buf: [u8; B], geo: (usize, usize, usize, usize), state_code: u8,
+             role: fcgi::Role, id: u16, stream: Option<fcgi::RecordType>, payload_rem: u16, padding_rem: u8,
+             output: Vec<u8>, output_start: usize) -> Parser<'a> {
+    mk(cfg, buf, geo, state_of(state_code), role, id, stream, payload_rem, padding_rem, output, output_start)
 }
 
 fn any_id() -> u16 { let id: u16 = kani::any(); kani::assume(id != 0); id }
@@ -454,5 +471,286 @@ fn c18_set_stream() {
     assert!(pos(cur2) != 99 && pos(cur2) >= pos(cur1) && pos(cur1) >= pos(cur), "active stream moved backwards or outside the role");
     if cur1.is_none() { assert!(cur2.is_none(), "None must be permanent"); }
     std::mem::forget(r); std::mem::forget(r2);
+    std::mem::forget(p);
+}
+
+// ------------------------------------------------------------------------------------------------ parse_payload, State::Values
+
+fn payload_values_case<const N: usize>() {
+    let cfg = cfg1();
+    let buf: [u8; B] = kani::any();
+    let g = any_geo(B);
+    let rlen = g.3 - g.2;
+    kani::assume(rlen == N);
+    let role = any_role();
+    let v0: u8 = kani::any();
+    kani::assume(v0 < 8);
+    let payload_rem: u16 = kani::any();
+    kani::assume(payload_rem > 0);
+    let padding_rem: u8 = kani::any();
+    let mut out = Vec::with_capacity(16);
+    out.push(0xD1);
+    let mut p = mk(&cfg, buf, g, State::Values { vars: fcgi::ProtocolVariables::from_bits_truncate(v0) }, role, any_id(),
+                   any_active(role), payload_rem, padding_rem, out, 0);
+    let mut res = Status { stream: 0, output: 0, stream_end: false };
+    let flow = { let mut dest: Option<&mut [u8]> = None; p.parse_payload(&mut res, &mut dest) };
+    // reference
+    let plen_ = if (payload_rem as usize) < rlen { payload_rem as usize } else { rlen };
+    let body = &buf[g.2..g.2 + plen_];
+    let mut o = 0usize;
+    let mut vars = v0;
+    let mut pairs = 0;
+    while let Some((h, nl, vl)) = crate::verif_kani::ref_next(body, o) {
+        if nl == 1 { match body[o + h] { b'A' => vars |= 1, b'B' => vars |= 2, b'C' => vars |= 4, _ => {} } }
+        o += h + nl + vl;
+        pairs += 1;
+    }
+    let complete = rlen >= payload_rem as usize;
+    let c = if complete { plen_ } else { o };
+    assert!(geo_ok(&p) && p.raw_start == g.2 + c && p.payload_rem == payload_rem - c as u16 && p.padding_rem == padding_rem,
+            "GetValues body accounting wrong (only whole pairs may be consumed before the body is complete)");
+    assert!(p.parsed_start == g.0 && p.gap_start == g.1 && res.stream == 0, "GetValues data must never reach the stream buffer");
+    match &p.state { State::Values { vars: v } => assert!(v.bits() == vars, "recognised variable set wrong"), _ => panic!("state changed") }
+    if complete {
+        assert!(res.output == 4 && p.output.len() == 5, "exactly one reply when the body is complete, count reported");
+        assert!(p.output[0] == 0xD1 && p.output[1] == 0xFA && p.output[2] == vars && p.output[3] == 1 && p.output[4] == 0xFB,
+                "reply must be appended after pending output and list exactly the union of recognised names");
+        kani::cover!(o < plen_, "body ends with an incomplete pair (ignored)");
+        if N >= 9 { kani::cover!(vars == 7 && v0 == 0, "all three names in one body"); }
+        kani::cover!(vars != v0, "name recognised");
+        kani::cover!(pairs == 0, "body without any complete pair still gets a reply");
+    } else {
+        assert!(res.output == 0 && p.output.len() == 1, "no reply before the body is complete");
+        kani::cover!(o == 0, "nothing consumable yet");
+        kani::cover!(o > 0 && o < rlen, "pairs consumed, partial pair kept for the next call");
+        kani::cover!(vars != v0, "name recognised in a partial body");
+    }
+    assert!(flow.is_continue() == (p.payload_rem == 0 && c < rlen));
+    std::mem::forget(p);
+}
+
+// @harness name=c02_payload_values_3 props=C02,C04,C03 tier=quick timeout=1500 rmbody=ioerr,nogrow mem=20 dead=1
+// @bound State::Values with any accumulated set; 24-byte buffer, every geometry with exactly 3 raw bytes (symbolic), payload_rem 1..65535 (shorter bodies via payload_rem); parse_name / write_response replaced by the E5 models; E8
+// @functions stream::Parser::parse_payload, NVIter<&[u8]>::next, parser::parse_nv_var
+#[kani::proof]
+#[kani::unwind(7)]
+#[kani::stub(std::hash::RandomState::new, fixed_random_state)]
+#[kani::stub(fcgi::ProtocolVariables::parse_name, crate::verif_kani::parse_name_model)]
+#[kani::stub(fcgi::ProtocolVariables::write_response, crate::verif_kani::write_response_model)]
+fn c02_payload_values_3() { payload_values_case::<3>(); }
+
+// @harness name=c02_payload_values_4 props=C02,C04,C03 tier=quick timeout=1500 rmbody=ioerr,nogrow mem=20 dead=1
+// @bound State::Values with any accumulated set; 24-byte buffer, every geometry with exactly 4 raw bytes (symbolic), payload_rem 1..65535 (shorter bodies via payload_rem); parse_name / write_response replaced by the E5 models; E8
+// @functions stream::Parser::parse_payload, NVIter<&[u8]>::next, parser::parse_nv_var
+#[kani::proof]
+#[kani::unwind(7)]
+#[kani::stub(std::hash::RandomState::new, fixed_random_state)]
+#[kani::stub(fcgi::ProtocolVariables::parse_name, crate::verif_kani::parse_name_model)]
+#[kani::stub(fcgi::ProtocolVariables::write_response, crate::verif_kani::write_response_model)]
+fn c02_payload_values_4() { payload_values_case::<4>(); }
+
+// @harness name=c02_payload_values_6 props=C02,C04,C03 tier=thorough timeout=7000 rmbody=ioerr,nogrow mem=20 dead=1
+// @bound State::Values with any accumulated set; 24-byte buffer, every geometry with exactly 6 raw bytes (symbolic), payload_rem 1..65535 (shorter bodies via payload_rem); parse_name / write_response replaced by the E5 models; E8
+// @functions stream::Parser::parse_payload, NVIter<&[u8]>::next, parser::parse_nv_var
+#[kani::proof]
+#[kani::unwind(7)]
+#[kani::stub(std::hash::RandomState::new, fixed_random_state)]
+#[kani::stub(fcgi::ProtocolVariables::parse_name, crate::verif_kani::parse_name_model)]
+#[kani::stub(fcgi::ProtocolVariables::write_response, crate::verif_kani::write_response_model)]
+fn c02_payload_values_6() { payload_values_case::<6>(); }
+
+// ------------------------------------------------------------------------------------------------ parse(): loop glue
+
+// @harness name=c02_parse_glue_skip props=C02,C03,C05 tier=thorough timeout=7000 rmbody=ioerr,nogrow mem=24
+// @bound whole parse(n, None) in State::Skip with active stream None (every record is skipped): payload_rem / padding_rem symbolic, 0..9 raw bytes + 0..9 new bytes (at most one following header), record types restricted to ignorable known types; checks payload->padding->header sequencing and accounting
+// @functions stream::Parser::parse, parse_payload, parse_head, padding step
+#[kani::proof]
+#[kani::unwind(6)]
+#[kani::stub(std::hash::RandomState::new, fixed_random_state)]
+#[kani::stub(fcgi::ProtocolVariables::parse_name, crate::verif_kani::parse_name_model)]
+#[kani::stub(fcgi::ProtocolVariables::write_response, crate::verif_kani::write_response_model)]
+fn c02_parse_glue_skip() {
+    let cfg = cfg1();
+    let buf: [u8; B] = kani::any();
+    let g = any_geo(B);
+    let rlen0 = g.3 - g.2;
+    let n: usize = kani::any();
+    kani::assume(n <= B - g.3);
+    let rlen = rlen0 + n;
+    kani::assume(rlen <= 9);
+    let role = any_role();
+    let id = any_id();
+    let (payload, padding): (u16, u8) = (kani::any(), kani::any());
+    let mut p = mk(&cfg, buf, g, State::Skip, role, id, None, payload, padding, Vec::new(), 0);
+    let r = p.parse(n, None);
+    let total = payload as usize + padding as usize;
+    match &r {
+        Ok(st) => {
+            assert!(st.stream == 0 && st.stream_end, "active stream None: nothing is delivered and end-of-stream is reported");
+            assert!(p.parsed_start == g.0 && p.gap_start == g.1, "stream buffer must stay untouched");
+            if rlen <= total && !(rlen == total && false) {
+                // the current record is not finished (or finished exactly with no byte left for a header)
+                let (fin, p2, d2, c) = { 
+                    if rlen >= total { (true, 0u16, 0u8, total) }
+                    else if rlen < payload as usize { (false, payload - rlen as u16, padding, rlen) }
+                    else { (false, 0, padding - (rlen - payload as usize) as u8, rlen) } };
+                assert!(p.raw_start == g.2 + c && p.free_start == g.3 + n, "wrong number of bytes skipped");
+                assert!(p.payload_rem == p2 && p.padding_rem == d2, "record accounting wrong after a partial skip");
+                kani::cover!(fin, "record ends exactly at the end of the buffered data");
+                kani::cover!(!fin && rlen > payload as usize, "stopped inside the padding");
+            } else {
+                // record finished, at least one byte of the next header present
+                let hs = g.2 + total;
+                if rlen - total < 8 {
+                    assert!(p.raw_start == hs && p.payload_rem == 0 && p.padding_rem == 0, "incomplete header must be kept");
+                    kani::cover!(rlen - total == 7, "next header one byte short");
+                } else {
+                    // exactly one header fits (rlen <= 9, total >= 0): it was dispatched
+                    assert!(p.raw_start >= hs + 8 || p.raw_start == hs, "header either consumed or held back");
+                }
+            }
+        }
+        Err(_) => {
+            // only possible if a complete header was reached and it is fatal / an abort for this request
+            assert!(rlen >= total + 8, "error without a complete header");
+            let hs = g.2 + total;
+            assert!(p.raw_start == hs, "failing header must stay in the buffer");
+            assert!(buf[hs] != 1 || (buf[hs + 1] == 2 && buf[hs + 2] == (id >> 8) as u8 && buf[hs + 3] == id as u8), "error for a well-formed, non-abort header");
+            kani::cover!(buf[hs] == 1, "abort reported after skipping the previous record");
+        }
+    }
+    assert!(geo_ok(&p));
+    std::mem::forget(r);
+    std::mem::forget(p);
+}
+
+// @harness name=c03_stream_initial props=C03,C02,C09 tier=quick timeout=600 rmbody=ioerr,nogrow
+// @bound parse(0, dest) on an empty raw region for every role / active stream / geometry: returns immediately, stream_end iff the active stream is None, nothing changes
+// @functions stream::Parser::parse, stream::Parser::is_record_boundary
+#[kani::proof]
+#[kani::unwind(4)]
+#[kani::stub(std::hash::RandomState::new, fixed_random_state)]
+#[kani::stub(fcgi::ProtocolVariables::parse_name, crate::verif_kani::parse_name_model)]
+#[kani::stub(fcgi::ProtocolVariables::write_response, crate::verif_kani::write_response_model)]
+fn c03_stream_initial() {
+    let cfg = cfg1();
+    let buf: [u8; B] = kani::any();
+    let g = { let g = any_geo(B); (g.0, g.1, g.2, g.2) };       // no raw bytes (same symbol for both ends)
+    let role = any_role();
+    let stream = any_active(role);
+    let (payload, padding): (u16, u8) = (kani::any(), kani::any());
+    let mut p = mk(&cfg, buf, g, State::Skip, role, any_id(), stream, payload, padding, Vec::new(), 0);
+    let with_dest: bool = kani::any();
+    if with_dest { kani::assume(g.0 == g.1); }
+    let mut d = [0u8; 4];
+    let r = if with_dest { p.parse(0, Some(&mut d[..])) } else { p.parse(0, None) };
+    match &r {
+        Ok(st) => {
+            assert!(st.stream == 0 && st.output == 0);
+            assert!(st.stream_end == stream.is_none(), "end-of-stream without input must be reported exactly when no stream is active");
+        }
+        Err(_) => panic!("parse(0) on an empty buffer failed"),
+    }
+    assert!(p.parsed_start == g.0 && p.gap_start == g.1 && p.raw_start == g.2 && p.free_start == g.3 && p.payload_rem == payload && p.padding_rem == padding);
+    assert!(p.is_record_boundary() == (payload == 0 && padding == 0));
+    kani::cover!(stream.is_none() && role == fcgi::Role::Authorizer, "Authorizer: immediately at end of input");
+    kani::cover!(with_dest && stream.is_some(), "direct read without data");
+    std::mem::forget(r);
+    std::mem::forget(p);
+}
+
+// ------------------------------------------------------------------------------------------------ conversions (C05)
+
+// @harness name=c05_stream_into_input props=C05,C03 tier=quick timeout=900
+// @bound every geometry of the 24-byte buffer, every payload_rem / padding_rem: into_input and into_request_parser refuse (Interrupted) exactly off a record boundary and otherwise hand over exactly the raw bytes in order
+// @functions stream::Parser::into_input, stream::Parser::into_request_parser, stream::Parser::discard_stream, request::Parser::from_parser
+#[kani::proof]
+#[kani::unwind(4)]
+#[kani::stub(std::hash::RandomState::new, fixed_random_state)]
+fn c05_stream_into_input() {
+    let cfg = cfg1();
+    let buf: [u8; B] = kani::any();
+    let g = any_geo(B);
+    let rlen = g.3 - g.2;
+    let (payload, padding): (u16, u8) = (kani::any(), kani::any());
+    let role = any_role();
+    let p = mk(&cfg, buf, g, any_state(), role, any_id(), any_active(role), payload, padding, Vec::new(), 0);
+    let boundary = payload == 0 && padding == 0;
+    let i: usize = kani::any();
+    if kani::any() {
+        match p.into_input() {
+            Ok(v) => {
+                assert!(boundary, "conversion allowed in the middle of a record");
+                assert!(v.len() == rlen, "leftover input has the wrong length");
+                if i < rlen { assert!(v[i] == buf[g.2 + i], "leftover input is not the unread raw bytes in order"); }
+                kani::cover!(rlen > 0 && g.0 < g.1, "unread stream data is dropped, raw look-ahead kept");
+                std::mem::forget(v);
+            }
+            Err(e) => { assert!(!boundary && matches!(e, Error::Interrupted), "conversion refused at a record boundary"); kani::cover!(payload == 0 && padding > 0, "refused inside padding"); }
+        }
+    } else {
+        match p.into_request_parser() {
+            Ok(mut rp) => {
+                assert!(boundary, "conversion allowed in the middle of a record");
+                let (il, cap, st_is_header, out_empty) = crate::parser::request::verif_kani::x_parser(&rp);
+                assert!(il == rlen && cap == B, "request parser must take over the buffer and the unread length");
+                if i < rlen { assert!(crate::parser::request::verif_kani::x_byte(&rp, i) == buf[g.2 + i], "request parser does not start with the unread raw bytes in order"); }
+                assert!(st_is_header && out_empty);
+                assert!(rp.input_buffer().len() == B - rlen);
+                kani::cover!(rlen == B, "completely full look-ahead");
+                kani::cover!(rlen > 0 && rlen < 8, "look-ahead ends in the middle of a header");
+                std::mem::forget(rp);
+            }
+            Err(e) => { assert!(!boundary && matches!(e, Error::Interrupted)); }
+        }
+    }
+}
+
+// ------------------------------------------------------------------------------------------------ parse(): concrete-shaped traces, symbolic cut
+
+/// Stdin record (3 payload bytes, 5 padding) + empty record of unknown type 12 + empty Stdin terminator: 32 bytes.
+fn trace(id: u16, pl: [u8; 3]) -> [u8; 32] {
+    let (h, l) = ((id >> 8) as u8, id as u8);
+    [1, 5, h, l, 0, 3, 5, 0, pl[0], pl[1], pl[2], 0, 0, 0, 0, 0,
+     1, 12, h, l, 0, 0, 0, 0,
+     1, 5, h, l, 0, 0, 0, 0]
+}
+
+// @harness name=c02_parse_trace_cut props=C02,C03,C04,C09 tier=quick timeout=1800 rmbody=ioerr,nogrow mem=20
+// @bound 32-byte buffer holding the concrete-shaped trace [Stdin(3 symbolic bytes, padding 5) | unknown type 12 (empty) | Stdin terminator] for a symbolic request id; the bytes arrive in two parse() calls cut at EVERY offset 0..32; dest = None; compared with the everything-at-once outcome
+// @functions stream::Parser::parse (loop glue: payload, padding, header, hold-back), parse_payload, parse_head
+#[kani::proof]
+#[kani::unwind(18)]
+#[kani::stub(std::hash::RandomState::new, fixed_random_state)]
+#[kani::stub(fcgi::ProtocolVariables::parse_name, crate::verif_kani::parse_name_model)]
+#[kani::stub(fcgi::ProtocolVariables::write_response, crate::verif_kani::write_response_model)]
+fn c02_parse_trace_cut() {
+    let cfg = cfg1();
+    let id = any_id();
+    let pl: [u8; 3] = kani::any();
+    let t = trace(id, pl);
+    let cut: usize = kani::any();
+    kani::assume(cut <= 32);
+    let request = Request { request_id: NonZeroU16::new(id).unwrap(), role: fcgi::Role::Responder, flags: fcgi::RequestFlags::from(0), params: HashMap::new() };
+    let mut p = Parser { buffer: Box::new(t), parsed_start: 0, gap_start: 0, raw_start: 0, free_start: 0, config: &cfg,
+                         output: Vec::with_capacity(32), output_start: 0, request, stream: Some(fcgi::RecordType::Stdin),
+                         payload_rem: 0, padding_rem: 0, state: State::Skip };
+    let r1 = p.parse(cut, None);
+    let (s1, e1, o1) = match &r1 { Ok(s) => (s.stream, s.stream_end, s.output), Err(_) => panic!("well-formed trace rejected") };
+    let r2 = p.parse(32 - cut, None);
+    let (s2, e2, o2) = match &r2 { Ok(s) => (s.stream, s.stream_end, s.output), Err(_) => panic!("well-formed trace rejected") };
+    assert!(s1 + s2 == 3, "delivered stream byte count depends on the chunking");
+    assert!(p.stream_buffer().len() == 3 && p.stream_buffer()[0] == pl[0] && p.stream_buffer()[1] == pl[1] && p.stream_buffer()[2] == pl[2],
+            "delivered stream bytes differ from the payload");
+    assert!(e2, "end of stream (empty terminating record) not reported once all bytes are in");
+    assert!(e1 == (cut == 32), "end of stream reported before the terminating record arrived completely");
+    assert!(o1 + o2 == 16 && p.output_buffer().len() == 16, "exactly one reply for the unknown-type record, counts reported");
+    assert!(is_rec(p.output_buffer(), 0, 11, id, 12, 0), "reply is not Unknown(12) for the record's id");
+    assert!(p.free_start - p.raw_start == 8 && p.is_record_boundary(), "terminating header must be held back at a record boundary");
+    kani::cover!(cut == 10, "cut inside the payload");
+    kani::cover!(cut == 13, "cut inside the padding");
+    kani::cover!(cut == 20, "cut inside the unknown record's header");
+    kani::cover!(cut == 0 || cut == 32, "everything at once");
+    std::mem::forget(r1); std::mem::forget(r2);
     std::mem::forget(p);
 }
